@@ -232,6 +232,9 @@ class RepeatedValueWrapper(MutableSequence[_V], Generic[_M, _V]):
             raise ValueError(
                 f'attempt to assign sequence of size {len(values)} to extended slice of size '
                 f'{len(raw_indexes_to_update)}')
+        # Elements are replaced one at a time below: refuse a batch containing a node that cannot be detached up front,
+        # so that a refused assignment leaves the list as it was.
+        properties._check_detachable([value for value in values if isinstance(value, base.RawModel)])
         for raw_index, value in zip(raw_indexes_to_update, values):
             if not self._update_raw(self._raw_wrapper[raw_index], value):
                 self._raw_wrapper[raw_index] = self._to_raw_type(value)
